@@ -68,15 +68,17 @@
  *    strcmp_s()
  */
 
-/* TODO: bounds check */
-static int compare_right(char const *a, char const *b) {
+/* alen: elements of a that may be looked at; the run ends there */
+static int compare_right(char const *a, size_t alen, char const *b) {
     int bias = 0;
 
     /* The longest run of digits wins.  That aside, the greatest
        value wins, but we can't know that it will until we've scanned
        both numbers to know that they have the same magnitude, so we
        remember it in BIAS. */
-    for (;; a++, b++) {
+    for (;; a++, b++, alen--) {
+        if (!alen) /* only the first dmax characters take part */
+            return bias;
         if (!isdigit((int)*a) && !isdigit((int)*b))
             return bias;
         if (!isdigit((int)*a))
@@ -96,11 +98,12 @@ static int compare_right(char const *a, char const *b) {
     return 0;
 }
 
-/* TODO: bounds check */
-static int compare_left(char const *a, char const *b) {
+static int compare_left(char const *a, size_t alen, char const *b) {
     /* Compare two left-aligned numbers: the first to have a
        different value wins. */
-    for (;; a++, b++) {
+    for (;; a++, b++, alen--) {
+        if (!alen)
+            return 0;
         if (!isdigit((int)*a) && !isdigit((int)*b))
             return 0;
         if (!isdigit((int)*a))
@@ -146,9 +149,12 @@ EXPORT errno_t _strnatcmp_s_chk(const char *dest, rsize_t dmax, const char *src,
         ca = dest[ai];
         cb = src[bi];
 
-        /* skip over leading spaces or zeros */
-        while (isspace((int)ca))
-            ca = dest[++ai];
+        /* skip over leading spaces or zeros, inside dmax */
+        while (isspace((int)ca)) {
+            if (++ai >= dmax) /* equal within the first dmax characters */
+                return RCNEGATE(EOK);
+            ca = dest[ai];
+        }
 
         while (isspace((int)cb))
             cb = src[++bi];
@@ -158,11 +164,13 @@ EXPORT errno_t _strnatcmp_s_chk(const char *dest, rsize_t dmax, const char *src,
             fractional = (ca == '0' || cb == '0');
 
             if (fractional) {
-                if ((*resultp = compare_left(dest + ai, src + bi)) != 0) {
+                if ((*resultp = compare_left(dest + ai, dmax - ai,
+                                             src + bi)) != 0) {
                     return RCNEGATE(EOK);
                 }
             } else {
-                if ((*resultp = compare_right(dest + ai, src + bi)) != 0)
+                if ((*resultp = compare_right(dest + ai, dmax - ai,
+                                              src + bi)) != 0)
                     return RCNEGATE(EOK);
             }
         }
